@@ -11,6 +11,60 @@ read this way, to the statement-level reference `Model/C10Loop.lean`, which `C10
 namespace RtcVerif.Gen
 open RtcVerif.C10
 
+/-! ### GoalProgrammingMixin -/
+
+/-- what the priority loop iterates over: `sorted({int(g.priority) for g in goals + path_goals if not g.is_empty})` -/
+def loopOrderGenMP (gs : List Goal) : List Int := C10.priorities gs
+
+/-- tracked assignments before the loop -/
+def prologueGenMP (st : PSt) : PSt :=
+  let st1 : PSt := { st with success := false }
+  let st2 : PSt := { st1 with skipFlag := false }
+  let st3 : PSt := { st2 with current := false }
+  st3
+
+/-- one pass through the body of the priority loop -/
+def passGenMP (run : Nat) (skip : Int → Bool) (oracle : Nat → Bool) (st : PSt) (p : Int) : PSt × Flow :=
+  let st1 : PSt := { st with events := st.events ++ [.started p], skipFlag := skip p }
+  if st1.skipFlag = true then
+    (st1, .next)
+  else
+    let st2 : PSt := { st1 with events := st1.events ++ [.solve p (oracle st1.nsolves)], success := oracle st1.nsolves, lastRaw := some (run, p, oracle st1.nsolves), nsolves := st1.nsolves + 1 }
+    if st2.success = false then
+      (st2, .stop)
+    else
+      let st3 : PSt := { st2 with current := false }
+      let st4 : PSt := { st3 with results := C10.extractNow st3 }
+      let st5 : PSt := { st4 with current := true }
+      let st6 : PSt := { st5 with events := st5.events ++ [.completed p], views := st5.views ++ [(p, C10.extractNow st5)] }
+      (st6, .next)
+
+/-- after the loop -/
+def epilogueGenMP (st : PSt) : PSt := { st with events := st.events ++ [.post] }
+
+def optimizeGenMP (run : Nat) (pst : Persist) (r : RunSpec) : PSt :=
+  epilogueGenMP (forLoop (passGenMP run r.skip r.oracle) (prologueGenMP (enter pst)) (loopOrderGenMP r.gs))
+
+theorem prologueGenMP_eq_model (st : PSt) : prologueGenMP st = C10.prologueRef .multiPass st := rfl
+
+theorem passGenMP_eq_model (run : Nat) (skip : Int → Bool) (oracle : Nat → Bool) (st : PSt) (p : Int) :
+    passGenMP run skip oracle st p = C10.passRef .multiPass run skip oracle st p := by
+  first
+    | rfl
+    | (unfold passGenMP C10.passRef C10.solveAndStore
+       cases hs : skip p <;> cases ho : oracle st.nsolves <;> simp [hs, ho, C10.extractNow])
+
+theorem epilogueGenMP_eq_model (st : PSt) : epilogueGenMP st = C10.epilogueRef st := rfl
+
+theorem optimizeGenMP_eq_model (run : Nat) (pst : Persist) (r : RunSpec) :
+    optimizeGenMP run pst r = C10.optimizeRef .multiPass run pst r := by
+  have h : passGenMP run r.skip r.oracle = C10.passRef .multiPass run r.skip r.oracle := by
+    funext st p; exact passGenMP_eq_model run r.skip r.oracle st p
+  have hp : ∀ st, prologueGenMP st = C10.prologueRef .multiPass st := prologueGenMP_eq_model
+  have he : ∀ st, epilogueGenMP st = C10.epilogueRef st := epilogueGenMP_eq_model
+  unfold optimizeGenMP C10.optimizeRef loopOrderGenMP
+  rw [h, hp, he]
+
 /-! ### SinglePassGoalProgrammingMixin -/
 
 /-- what the priority loop iterates over: `sorted({int(g.priority) for g in goals + path_goals if not g.is_empty})` -/
